@@ -14,6 +14,7 @@ import (
 	"os"
 	"runtime"
 	"sort"
+	"sync"
 	"time"
 
 	"github.com/hugelgupf/p9/p9"
@@ -138,9 +139,21 @@ func (rn *runner) run(in *input, si int) (*result, error) {
 	for _, r := range in.Reqs {
 		byID[r.ID] = r
 	}
+	// (a Close is held only when it is the Tclunk's: the connection's teardown closes the same File
+	// if the request was never delivered, and that Close is not the request's backend call)
+	var dmu sync.Mutex
+	delivered := map[int]bool{}
 	auto.SetGate(func(c *puppet.Call) bool {
 		for _, r := range in.Reqs {
 			if r.Kind == "op" && c.K == gateKind[r.Op] && c.F == fileOf[r.ID] {
+				if r.Op == "clunk" {
+					dmu.Lock()
+					d := delivered[r.ID]
+					dmu.Unlock()
+					if !d {
+						return false
+					}
+				}
 				return true
 			}
 		}
@@ -241,6 +254,9 @@ func (rn *runner) run(in *input, si int) (*result, error) {
 		switch kind {
 		case "Deliver":
 			r := byID[id]
+			dmu.Lock()
+			delivered[id] = true
+			dmu.Unlock()
 			tg := r.Tag
 			var err error
 			switch r.Kind {
